@@ -429,6 +429,12 @@ echo "rc2=$?"
 echo "tgt2=$(cat tgt 2>/dev/null || echo MISSING)"
 echo "ran2=$(wc -l < ../ran.log 2>/dev/null || echo 0)"
 ls | grep -c 'redo.tmp' | sed 's/^/tmpfiles=/'
+# and once more after a source edit (a file redo must keep its hands off stays as it is then, too)
+sleep 0.05; echo v2 > src
+redo-ifchange tgt >../run3.log 2>&1
+echo "rc3=$?"
+echo "tgt3=$(cat tgt 2>/dev/null || echo MISSING)"
+echo "ran3=$(wc -l < ../ran.log 2>/dev/null || echo 0)"
 sed 's/^/LOG1: /' ../run1.log | head -6
 """
 
@@ -448,13 +454,13 @@ def preamble_replay(scn, c):
     same_mtime = w.get('fs') is not None and w.get('stamp') is not None and w['fs'].split('-')[0] == w['stamp'].split('-')[0]
     # a hand edit; with the recorded mtime kept when the witness says only the size differs (cp -p, rsync -t, touch -r)
     edit = ('cp -p tgt ../ref; echo USER-EDIT > tgt; touch -r ../ref tgt' if same_mtime else 'echo USER-EDIT > tgt')
-    dobody = 'echo ran >> ../ran.log\ncat src'
+    dobody = 'echo ran >> ../ran.log\nredo-ifchange src\ncat src'
     is_link = (w.get('fs') or '').startswith('7.000000-5-555')
     if role == 'stale-tmp':
         setup = 'echo STALE-PARTIAL-OUTPUT > tgt.redo.tmp'
         want = {'rc1': '0', 'tgt1': 'v1', 'tmpfiles': '0'}
     elif role in ('touches-foreign-file', 'foreign-file-status', 'foreign-file-role'):
-        want = {'rc1': '0', 'tgt1': 'USER-EDIT', 'ran1': '0', 'rc2': '0', 'tgt2': 'USER-EDIT', 'ran2': '0'}
+        want = {'rc1': '0', 'tgt1': 'USER-EDIT', 'ran1': '0', 'rc2': '0', 'tgt2': 'USER-EDIT', 'ran2': '0', 'tgt3': 'USER-EDIT', 'ran3': '0'}
         if is_link:
             # the user's own symbolic link to a regular file (e.g. config.h -> config-linux.h); a rule matches its name
             setup = ('echo USER-EDIT > real-file\nln -s real-file tgt' if not gen else
@@ -1072,7 +1078,12 @@ def crash_facts(chk, pid):
             role = 'crash:%s:%s' % (what_k, point)
             wit['crash_point'] = point
             wit['all_points'] = [(pt, b[0]) for pt, b in found]
-            return {'role': role, 'kind': 'crash', 'witness': wit, 'what': 'killed %s (prior state %s): %s' % (point, pre, what)}
+            sc = st['script'] or {}
+            # replay preference: a script that prints its output and declares its source is the ordinary shape (a script without
+            # any output cannot even complete the first build of the replay scenario)
+            prio = (0 if sc.get('stdout') else (1 if sc.get('has3') else 3)) + (0 if sc.get('declares') else 1)
+            return {'role': role, 'kind': 'crash', 'witness': wit, 'prio': prio,
+                    'what': 'killed %s (prior state %s): %s' % (point, pre, what)}
         return None
 
     def sample(outcome, val, path):
